@@ -631,6 +631,16 @@ impl Model {
               st.get_mut(name).unwrap().v = SV::Table(rows + 1, nc);
               return self.verdict(Must::Ok, After::Store(st), combo);
             }
+            // `tb += tb2`: the rows of tb2 are appended (copies)
+            if let (SV::Table(rows, cols), SV::Table(rows2, cols2)) = (&cur.v, &val) {
+              let fits = *bop == Bop::Add && cols.len() == cols2.len() && cols.iter().all(|(cn, ck, _)| cols2.iter().any(|(n, kd, _)| n == cn && kd == ck));
+              if !fits { return self.either_unknown(name, "f6-table-schema", combo); }
+              let mut nc = cols.clone();
+              for (cn, _, data) in nc.iter_mut() { data.extend(cols2.iter().find(|(n, _, _)| n == cn).unwrap().2.iter().cloned()); }
+              let mut st = s.clone();
+              st.get_mut(name).unwrap().v = SV::Table(rows + rows2, nc);
+              return self.verdict(Must::Ok, After::Store(st), combo);
+            }
             let defined = match (&cur.v, &val) {
               (a, b) if a.is_scalar() && b.is_scalar() => a.kind_tag() == b.kind_tag(),
               (SV::Mat(ek, ..), b) if b.is_scalar() => *ek == b.kind_tag(),
